@@ -190,6 +190,50 @@ def run(ctx):
             inf.append((f, d, "m1"))
         sessions.append(lines)
         meta.append(inf)
+    # mate in one at a root that already COUNTS AS DRAWN by the fifty-move rule (clock >= 100) or by repetition (third occurrence,
+    # reached by a reversible shuffle): draws must be claimed, the mate is on the board and must be played and announced
+    def with_clock(f, c):
+        p_ = f.split()
+        return " ".join(p_[:4] + [str(c), p_[5]])
+    m1sub = mate1[: (60 if q else 800)]
+    for f in m1sub:
+        for c in (100, 130):
+            g = with_clock(f, c)
+            info[g] = info[f]
+            sessions.append(["go %s | | depth %d" % (g, d) for d in (1, 3)])
+            meta.append([(g, d, "m1") for d in (1, 3)])
+    # shuffles a b a' b' that bring the position back (validated by the extracted rules)
+    sqs = lambda m: (m[:2], m[2:4])
+    shuf_cands = []
+    for f in m1sub:
+        own = [m for m in info[f]["legal"] if len(m) == 4 and m not in info[f]["mating"]]
+        rng.shuffle(own)
+        for a in own[:4]:
+            shuf_cands.append((f, a))
+    rc, r1, err = run_lines(model, ["g_legal %s | %s" % (f, a) for f, a in shuf_cands], shards=NPROC)
+    tries = []
+    for (f, a), r in zip(shuf_cands, r1):
+        ls = (r or "").split(" ; ")
+        if len(ls) < 2:
+            continue
+        opp = [m for m in ls[1].split()[1:] if len(m) == 4]
+        rng.shuffle(opp)
+        for b in opp[:3]:
+            seq = [a, b, a[2:4] + a[:2], b[2:4] + b[:2]]
+            tries.append((f, seq))
+    rc, r2, err = run_lines(model, ["g_fen %s | %s" % (f, " ".join(seq)) for f, seq in tries], shards=NPROC)
+    nrep = 0
+    seen_rep = set()
+    for (f, seq), r in zip(tries, r2):
+        fs = (r or "").split(" ; ")
+        if f in seen_rep or len(fs) < 5 or any(x.startswith("BAD") or not x for x in fs[:5]):
+            continue
+        if fs[4].split()[:4] == f.split()[:4]:
+            seen_rep.add(f)
+            nrep += 1
+            sessions.append(["go %s | %s | depth %d" % (f, " ".join(seq + seq), d) for d in (1, 3)])
+            meta.append([(f, d, "m1") for d in (1, 3)])
+    ctx.notes["mate_in_one_at_drawn_roots"] = {"clock_100_130": 2 * len(m1sub), "third_occurrence": nrep}
     # sessions along short games so that the table carries earlier real searches
     games = posgen.playouts(model, rng, [rng.choice(others) for _ in range(120 if q else 1500)], 4, bias=7)
     gl = ["g_fen %s | %s" % (f, " ".join(ms)) for f, ms in games]
